@@ -560,6 +560,13 @@ def run(prog: Program, rep, tier: str) -> None:
             for a, b in ((l, rr), (rr, l)):
                 if U(a) == "self.rho" and const_value(b) == 10:
                     tenfold = True
+        # ... and that value IS the filter's penalty from now on (the next refusal multiplies it again): self.rho holds it at the return
+        try:
+            stored = U(uf.resolved(r, ast.Attribute(value=ast.Name(id="self", ctx=ast.Load()), attr="rho", ctx=ast.Load())))
+        except Exception:
+            stored = None
+        rep.check(val is not None and stored == U(val), "filter-5-reject-stored", upd.qualname, short(r),
+                  f"the refused point's tenfold penalty is stored as the filter's penalty before it is returned (self.rho at the return: {stored}; returned: {U(val) if val is not None else None})", upd.loc(r))
         rep.check(on_reject and tenfold, "filter-5-reject-tenfold", upd.qualname, short(r),
                   f"a refused point multiplies the filter's penalty by 10 and returns reject_with_penalty(that value) (found value: {U(val) if val is not None else None})", upd.loc(r))
     # reject/accept constructors
